@@ -333,7 +333,9 @@ def run(spec, out):
             # ---- failing calls: every argument position ----------------------------------------------
             kind = rng.choice(["define-dupname", "define-dupsym", "define-space", "unit-dupname", "unit-space", "derive-dupname", "derive-dupsym", "derive-space",
                                "alias-dupname", "alias-dupsym", "alias-space", "scale-dupname", "scale-space", "scale-badzero", "dimderive-dupname",
-                               "prefix-dupname", "prefix-dupsym", "equals-self", "equals-zero", "define-badsymboltype", "dimdefine-dupname"])
+                               "prefix-dupname", "prefix-dupsym", "equals-self", "equals-zero", "define-badsymboltype", "dimdefine-dupname",
+                               "prefix-dupname-identity", "ownname-derive-dupsym", "ownname-derive-space", "ownname-alias-dupsym", "ownname-alias-space",
+                               "symbolonly-alias-dupsym", "symbolonly-alias-space", "dimctor-dupname"])
             dup_n, dup_s = rng.choice(unit_names), rng.choice(unit_symbols)
             target = rng.choice(my_units) if my_units else None
             anon = None
@@ -406,6 +408,35 @@ def run(spec, out):
                     if anon_first:
                         Prefix(13, e)
                     expect_fail("Prefix(name=...)", "duplicate symbol", "anonymous-first" if anon_first else "fresh", lambda: Prefix(13, e, name=fresh("zqp"), symbol=taken))
+            elif kind == "prefix-dupname-identity":
+                # exponent 0 denotes the identity prefix for every base: a taken name / symbol must still be refused
+                taken_n = rng.choice(sorted(Prefix._by_name)) if Prefix._by_name else None
+                taken_s = rng.choice(sorted(Prefix._by_symbol)) if Prefix._by_symbol else None
+                if taken_n and rng.random() < 0.5:
+                    expect_fail("Prefix(name=...)", "duplicate name, exponent 0", "already-named", lambda: Prefix(rng.choice([10, 2, 7]), 0, name=taken_n, symbol=fresh("zqP")))
+                elif taken_s:
+                    expect_fail("Prefix(name=...)", "duplicate symbol, exponent 0", "already-named", lambda: Prefix(rng.choice([10, 2, 7]), 0, name=fresh("zqp"), symbol=taken_s))
+            elif kind in ("ownname-derive-dupsym", "ownname-derive-space", "ownname-alias-dupsym", "ownname-alias-space") and target is not None and target.names:
+                # re-declaring a unit under a name it already has must still validate the symbol
+                own = rng.choice(target.names)
+                bad = (dup_s if Unit._by_symbol[dup_s] is not target else None) if kind.endswith("dupsym") else fresh("zq s")
+                if bad is not None:
+                    if "derive" in kind:
+                        expect_fail("Unit.derive", "own name + " + ("duplicate symbol" if kind.endswith("dupsym") else "symbol with space"), "already-named", lambda: Unit.derive(target, own, bad))
+                    else:
+                        expect_fail("Unit.alias", "own name + " + ("duplicate symbol" if kind.endswith("dupsym") else "symbol with space"), "already-named", lambda: target.alias(name=own, symbol=bad))
+            elif kind in ("symbolonly-alias-dupsym", "symbolonly-alias-space") and subject is not None:
+                bad = (dup_s if Unit._by_symbol[dup_s] is not subject else None) if kind.endswith("dupsym") else fresh("zq s")
+                if bad is not None:
+                    expect_fail("Unit.alias", "no name + " + ("duplicate symbol" if kind.endswith("dupsym") else "symbol with space"), for_state, lambda: subject.alias(symbol=bad))
+            elif kind == "dimctor-dupname":
+                taken = rng.choice(sorted(Dimension._by_name))
+                exps = tuple((rng.choice(dims) ** rng.randint(20, 29)).exponents)
+                anon_first = rng.random() < 0.5
+                if anon_first:
+                    Dimension(exps)
+                if Dimension._by_name[taken] is not Dimension._known.get(exps):
+                    expect_fail("Dimension(name=...)", "duplicate name", "anonymous-first" if anon_first else "fresh", lambda: Dimension(exps, name=taken, symbol=fresh("zqD")))
             elif kind == "equals-self" and target is not None:
                 expect_fail("Unit.equals", "the unit itself", "already-named", lambda: target.equals(2 * target))
             elif kind == "equals-zero" and target is not None and len(my_units) > 1:
